@@ -82,3 +82,41 @@ Proof.
     destruct (N.eqb_spec c 10) as [->|]; [discriminate|]. cbn [andb].
     destruct (N.eqb_spec c 38); [contradiction|]. destruct (N.eqb_spec c 60); [contradiction|]. rewrite Hc. reflexivity.
 Qed.
+
+(* ---- attribute values ---- *)
+Lemma attr_read_plain c rest : xml_char c = true -> c <> 13 -> c <> 10 -> c <> 9 -> c <> 38 -> c <> 60 -> c <> 34 ->
+  attr_read (c :: rest) None false = option_map (cons c) (attr_read rest None false).
+Proof.
+  intros Hc H13 H10 H9 H38 H60 H34. cbn [attr_read].
+  destruct (N.eqb_spec c 13); [contradiction|]. destruct (N.eqb_spec c 10); [contradiction|]. cbn [andb orb].
+  destruct (N.eqb_spec c 9); [contradiction|]. destruct (N.eqb_spec c 38); [contradiction|].
+  destruct (N.eqb_spec c 60); [contradiction|]. destruct (N.eqb_spec c 34); [contradiction|]. cbn [orb]. rewrite Hc. reflexivity.
+Qed.
+
+Lemma attr_read_escaped_char c rest : xml_char c = true ->
+  attr_read (escape_attr_char c ++ rest) None false = option_map (cons c) (attr_read rest None false).
+Proof.
+  intros Hc. unfold escape_attr_char, escape_char.
+  destruct (N.eqb_spec c 9) as [->|N9]; [reflexivity|].
+  destruct (N.eqb_spec c 10) as [->|N10]; [reflexivity|].
+  destruct (N.eqb_spec c 13) as [->|N13]; [reflexivity|].
+  destruct (N.eqb_spec c 60) as [->|N60]; [reflexivity|].
+  destruct (N.eqb_spec c 62) as [->|N62]; [reflexivity|].
+  destruct (N.eqb_spec c 38) as [->|N38]; [reflexivity|].
+  destruct (N.eqb_spec c 39) as [->|N39]; [reflexivity|].
+  destruct (N.eqb_spec c 34) as [->|N34]; [reflexivity|].
+  cbn [app]. apply attr_read_plain; assumption.
+Qed.
+
+(* what an XML processor reads back from a written attribute value is the source string, for every string of XML characters *)
+Theorem escape_attr_roundtrip s : forallb xml_char s = true -> attr_read_back (escape_attr s) = Some s.
+Proof.
+  unfold attr_read_back. induction s as [|c r IH]; intros Hx; [reflexivity|].
+  cbn [forallb] in Hx. apply andb_prop in Hx. destruct Hx as [Hc Hr].
+  unfold escape_attr. cbn [flat_map]. rewrite attr_read_escaped_char by exact Hc.
+  fold (escape_attr r). rewrite (IH Hr). reflexivity.
+Qed.
+
+(* quick-xml's own attribute escaping (the code before the repair) loses tab, line feed and carriage return: finding F23 *)
+Example escape_in_attr_refuted : attr_read_back (escape [97; 9; 98]) = Some [97; 32; 98] /\ attr_read_back (escape [13; 10]) = Some [32].
+Proof. vm_compute. split; reflexivity. Qed.
